@@ -89,6 +89,10 @@ def lanczos_tridiag(
     r_vec.sub_(alpha_0.unsqueeze(dim_dimension).mul(q_0_vec))
     beta_0 = torch.norm(r_vec, 2, dim=dim_dimension)
 
+    # If the start vectors are eigenvectors the Krylov space is exhausted after the first step
+    if torch.sum(beta_0.abs() > 1e-6) == 0:
+        num_iter = 1
+
     # Copy over alpha_0 and beta_0 to t_mat
     t_mat[0, 0].copy_(alpha_0)
     if num_iter > 1:
